@@ -1218,22 +1218,17 @@ impl TcpConnecter {
         interval: delay,
       });
     }
-    // Events that concern other actors must not cut the delay short.
-    let sleep = tokio::time::sleep(delay);
-    tokio::pin!(sleep);
-    loop {
-      tokio::select! {
-        biased;
-        event_res = system_event_rx.recv() => {
-          match event_res {
-            Ok(SystemEvent::ContextTerminating) => return Ok(false),
-            Ok(SystemEvent::SocketClosing { socket_id: s_id }) if s_id == self.parent_socket_id => return Ok(false),
-            Err(_) => return Ok(false),
-            Ok(_) => continue,
-          }
+    tokio::select! {
+      biased;
+      event_res = system_event_rx.recv() => {
+        match event_res {
+          Ok(SystemEvent::ContextTerminating) => Ok(false),
+          Ok(SystemEvent::SocketClosing { socket_id: s_id }) if s_id == self.parent_socket_id => Ok(false),
+          Err(_) => Ok(false),
+          Ok(_) => Ok(true),
         }
-        _ = &mut sleep => return Ok(true),
       }
+      _ = tokio::time::sleep(delay) => Ok(true),
     }
   }
 }
